@@ -618,3 +618,45 @@ func verif_server_registerRouteHandlers(svr *Service, helper *httppkg.RouterRegi
 	verif.Ensures(verif.CallCountWith("mux.Router).Use", 0, sub) == 1, "sub_router_carries_the_auth_middleware")
 	verif.Ensures(verif.CallCount("mux.Router).") == 2+verif.CallCountWith("mux.Router).", 0, sub), "every_other_registration_goes_to_the_sub_router")
 }
+
+// NewService, the listeners sharing the control port (C06 "all of this holds
+// ... when the vhost port is shared with the control port"): the first-bytes
+// dispatcher of the dependency golib/net/mux asks its listeners in ascending
+// priority number. When the https vhost port is the control port, the https
+// vhost listener is asked before the control-TLS listener (whose matcher also
+// accepts a TLS handshake record), so a ClientHello reaches the SNI routes;
+// when the http vhost port is the control port, the control websocket upgrade
+// (a fixed request-line prefix) is asked before the http vhost listener. The
+// control-TLS listener is the one stored in the service.
+//
+//verif:contract ~/server.NewService
+//verif:props C06
+//verif:kinds post
+//verif:prune
+func verif_server_NewService_shared_port(cfg *v1.ServerConfig) {
+	// the optional listeners that do not take part in the first-bytes dispatch
+	// are switched off (path budget; they are independent of the muxer)
+	verif.Requires(cfg.WebServer.Port <= 0 && cfg.TCPMuxHTTPConnectPort <= 0 && cfg.KCPBindPort <= 0 && cfg.QUICBindPort <= 0 && cfg.SSHTunnelGateway.BindPort <= 0 && len(cfg.HTTPPlugins) == 0, "only_the_muxed_listeners_are_configured")
+	shared := cfg.BindAddr == cfg.ProxyBindAddr
+	httpShared := shared && cfg.VhostHTTPPort > 0 && cfg.BindPort == cfg.VhostHTTPPort
+	httpsShared := shared && cfg.VhostHTTPSPort > 0 && cfg.BindPort == cfg.VhostHTTPSPort
+	verif.ResetEvents()
+	svr, err := NewService(cfg)
+	if err != nil {
+		return
+	}
+	const evListen = "mux.Mux).Listen$"
+	verif.Ensures(verif.CallCount(evListen) == 2 && verif.Same(any(svr.tlsListener), any(verif.NthRet[net.Listener](evListen, 1, 0))), "control_tls_listener_is_the_second_custom_listener")
+	wsPrio := verif.NthArg[int](evListen, 0, 1)
+	tlsPrio := verif.NthArg[int](evListen, 1, 1)
+	if httpsShared {
+		verif.Ensures(verif.Called("mux.Mux).ListenHTTPS$") && verif.NthArg[int]("mux.Mux).ListenHTTPS$", 0, 1) < tlsPrio, "client_hello_on_the_shared_port_is_offered_to_the_https_vhost_first")
+	} else {
+		verif.Ensures(!verif.Called("mux.Mux).ListenHTTPS$"), "https_vhost_on_its_own_port_is_not_muxed")
+	}
+	if httpShared {
+		verif.Ensures(verif.Called("mux.Mux).ListenHTTP$") && wsPrio < verif.NthArg[int]("mux.Mux).ListenHTTP$", 0, 1), "control_websocket_upgrade_is_matched_before_the_http_vhost")
+	} else {
+		verif.Ensures(!verif.Called("mux.Mux).ListenHTTP$"), "http_vhost_on_its_own_port_is_not_muxed")
+	}
+}
